@@ -5809,3 +5809,109 @@ func c14r16(c *Ctx, r *Report) {
 	})
 	r.floor("signal registrations for the quit request", n, 1)
 }
+
+// c16r15 / c16r16: two framing clauses of the hand-written HTTP endpoint.
+func c16r15(c *Ctx, r *Report) {
+	l := c.L
+	cc := cdCache{}
+	_ = cc
+	// ---- R15: the answer is written under a deadline
+	r.rule("C16-R15", "A (a deadline dominates the blocking write)", "P1",
+		"in startHttpServer's accept loop, every Write on the accepted connection is dominated by a SetWriteDeadline or SetDeadline call on that connection",
+		"a client that requests a large answer and stops reading blocks the serial accept loop for good: every later request hangs")
+	start := l.Fn("fzf", "startHttpServer")
+	if start == nil {
+		r.unest("anchors", token.NoPos, nil, "anchor startHttpServer", "cannot resolve")
+	} else {
+		n := 0
+		for _, f := range withClosures(start) {
+			eachInstr(f, func(in ssa.Instruction) {
+				call, ok := in.(*ssa.Call)
+				if !ok || !call.Common().IsInvoke() || call.Common().Method.Name() != "Write" {
+					return
+				}
+				if !strings.HasSuffix(call.Common().Value.Type().String(), "net.Conn") {
+					return
+				}
+				n++
+				dom := false
+				eachInstr(f, func(i2 ssa.Instruction) {
+					c2, ok := i2.(*ssa.Call)
+					if !ok || !c2.Common().IsInvoke() || c2.Common().Value != call.Common().Value {
+						return
+					}
+					if nm := c2.Common().Method.Name(); (nm == "SetWriteDeadline" || nm == "SetDeadline") && dominates(i2, in) {
+						dom = true
+					}
+				})
+				r.check(dom, fmt.Sprintf("%s:answer #%d is written under a deadline", relName(start), n), call.Pos(), f, "SetWriteDeadline / SetDeadline before Write", "the answer is written without a deadline: a client that does not read wedges the endpoint")
+			})
+		}
+		r.floor("writes on accepted connections", n, 1)
+	}
+	// ---- R16: the request scanner's "final token" shortcut belongs to the body
+	r.rule("C16-R16", "A (the shortcut is taken only at EOF or in the body section)", "P1",
+		"in the split function handleHttpRequest gives its scanner, the return of bufio.ErrFinalToken is reached only under atEOF or under a test of the section counter",
+		"a well-formed request whose header block arrives in two TCP segments is answered 400 / 401")
+	h := l.Fn("fzf", "(*httpServer).handleHttpRequest")
+	if h == nil {
+		r.unest("anchors", token.NoPos, nil, "anchor httpServer.handleHttpRequest", "cannot resolve")
+		return
+	}
+	n := 0
+	for _, f := range withClosures(h) {
+		if f == h || len(f.Params) != 2 {
+			continue
+		}
+		var atEOF *ssa.Parameter
+		for _, p := range f.Params {
+			if bt, ok := p.Type().Underlying().(*types.Basic); ok && bt.Kind() == types.Bool {
+				atEOF = p
+			}
+		}
+		if atEOF == nil {
+			continue
+		}
+		pc := pathConds(f)
+		eachInstr(f, func(in ssa.Instruction) {
+			ret, ok := in.(*ssa.Return)
+			if !ok || len(ret.Results) != 3 {
+				return
+			}
+			final := false
+			for w := range backwardSlice(retResult(ret, 2), nil, nil) {
+				if u, ok := w.(*ssa.UnOp); ok {
+					if g, ok := u.X.(*ssa.Global); ok && g.Name() == "ErrFinalToken" {
+						final = true
+					}
+				}
+			}
+			if !final {
+				return
+			}
+			n++
+			holds, reach := pc.Implies(in.Block(), func(lits []Lit) bool {
+				for _, lt := range lits {
+					if lt.Atom == ssa.Value(atEOF) && lt.Val {
+						return true
+					}
+					if b, ok := lt.Atom.(*ssa.BinOp); ok && (b.Op == token.EQL && lt.Val || b.Op == token.NEQ && !lt.Val) {
+						// section == <const>, section being a captured int variable of the handler
+						if u, ok := b.X.(*ssa.UnOp); ok && u.Op == token.MUL {
+							if fv, ok := u.X.(*ssa.FreeVar); ok {
+								if bt, ok := deref(fv.Type()).Underlying().(*types.Basic); ok && bt.Kind() == types.Int {
+									if _, isK := constIntVal(b.Y); isK {
+										return true
+									}
+								}
+							}
+						}
+					}
+				}
+				return false
+			})
+			r.check(holds && reach, fmt.Sprintf("%s:final-token return #%d", relName(h), n), ret.Pos(), f, "at EOF, or while the body is read", "the rest of the buffer is declared the final token also while header lines are being read: a header line split across reads ends the request")
+		})
+	}
+	r.floor("final-token returns of the request scanner", n, 1)
+}
